@@ -14,6 +14,7 @@ import (
 	"golang.org/x/tools/go/ssa"
 
 	"ogenverif/internal/core"
+	"ogenverif/internal/panicob"
 )
 
 // onCycleWith reports whether block a lies on a CFG cycle that also contains block b (a reaches b and b reaches a).
@@ -1283,4 +1284,66 @@ func sameStableLoad(a, b ssa.Value) bool {
 		return n == 0
 	}
 	return true
+}
+
+// checkWrapOfNilError: errors.Wrap(err, …) returns nil when err is nil. A Wrap
+// whose operand is the very value that a dominating test has just shown to be
+// nil (the function already returned on `err != nil`) therefore reports
+// success where the text says failure.
+func checkWrapOfNilError(c *core.Ctx, r *core.Rule, prog *core.Prog, pkgs ...string) {
+	table, _ := panicob.LoadTable(c.VerifDir, "panic_justified.json")
+	n := 0
+	for _, pp := range pkgs {
+		pkg := prog.ByPath[pp]
+		if pkg == nil {
+			continue
+		}
+		for _, top := range core.PkgFuncs(prog.SSA, pkg) {
+			for _, fn := range core.AllFuncs(top) {
+				for _, call := range core.Calls(fn) {
+					name := core.CalleeName(call.Common())
+					if name != "github.com/go-faster/errors.Wrap" && name != "github.com/go-faster/errors.Wrapf" {
+						continue
+					}
+					n++
+					v := call.Common().Args[0]
+					if v.Referrers() == nil {
+						r.Ob(true, "")
+						continue
+					}
+					knownNil := false
+					for _, ref := range *v.Referrers() {
+						bo, ok := ref.(*ssa.BinOp)
+						if !ok || (bo.Op != token.NEQ && bo.Op != token.EQL) || !(core.IsNilConst(bo.X) || core.IsNilConst(bo.Y)) {
+							continue
+						}
+						for _, u := range *bo.Referrers() {
+							iff, ok := u.(*ssa.If)
+							if !ok {
+								continue
+							}
+							nilEdge := iff.Block().Succs[1]
+							if bo.Op == token.EQL {
+								nilEdge = iff.Block().Succs[0]
+							}
+							if len(nilEdge.Preds) == 1 && (nilEdge == call.Block() || nilEdge.Dominates(call.Block())) {
+								knownNil = true
+							}
+						}
+					}
+					if why := tableReason(table, "wrap-of-nil:"+fnKeyFull(fn)); knownNil && why != "" {
+						r.Justified++
+						r.Pass(fmt.Sprintf("wrap-of-nil:%s at %s: reviewed: %s", fnKeyFull(fn), c.Pos(call.Pos()), why))
+						continue
+					}
+					if knownNil {
+						r.Fail("wrap-of-nil:"+fnKeyFull(fn), c.Pos(call.Pos()), fmt.Sprintf("%s wraps an error value that is nil on every path reaching this call (the function returned on its non-nil edge before): errors.Wrap(nil, …) is nil, so the failure the message describes is reported as success", fn.Name()))
+					} else {
+						r.Ob(true, "")
+					}
+				}
+			}
+		}
+	}
+	r.Note("errors.Wrap / Wrapf calls examined: %d", n)
 }
